@@ -39,8 +39,20 @@ CROSS_FEATS = "fixed,cross,op=producev2,field=partition,code=6,next=heartbeatv0"
 
 
 def feats_of(c):
+    d = c.get("_f")
+    if d is not None:
+        return d
     d = {}
-    for f in c["feats"].split(","):
+    txt = c["feats"]
+    i = txt.find("want=[")
+    if i >= 0:
+        j = txt.find("]", i)
+        d["want"] = txt[i + 5:j + 1]
+        txt = txt[:i] + txt[j + 1:]
+    c["_f"] = d
+    for f in txt.split(","):
+        if not f:
+            continue
         k, _, v = f.partition("=")
         d[k] = v if _ else True
     return d
@@ -149,7 +161,7 @@ def drain_predicate(c, f):
     head, sep, mtxt = body[len("drain:"):].rpartition(":[")
     msgs = parse_msgs("[" + mtxt) if sep else None
     want = parse_msgs(f.get("want", "[]")) or []
-    recends = [int(x) for x in f.get("recends", "").split("/") if x]
+    recends = [int(x, 16) for x in f.get("recends", "").split("/") if x]
     if msgs is None:
         return [("C17-drain-unparsable", tok[:80])]
 
